@@ -7,6 +7,6 @@ import WowSrp.Gen.Constants
 namespace WowSrp
 
 /-- C09: RC4 key = HMAC(direction constant, session key) -/
-theorem C09_source_layout : Gen.layoutWrathInnerNew = [["key:key.as_slice()", "session_key"]] := by decide
+theorem C09_source_layout : Gen.layoutWrathInnerNew = [["key:key.as_slice()", "session_key"], ["ctors:Hmac::<Sha1>::new_from_slice", "methods:finalize,into_bytes,update", "control:", "rebound:hmac", "tail:Self{inner}"]] := by decide +kernel
 
 end WowSrp
